@@ -318,6 +318,7 @@ def _inline_one(fn, blk, idx, h, serial, repo):
     # `X = helper(..)` where every non-constant return of the helper hands back one of its locals V: in the copy V IS X (the
     # object a constructor-like helper builds is the one the caller goes on to use, under the caller's name)
     unify = None
+    asg_elem = None
     try:
         tgt = None
         def at(r):
@@ -337,6 +338,7 @@ def _inline_one(fn, blk, idx, h, serial, repo):
                     lx = at(e["kids"][0])
                     if lx is not None and lx.get("cls") == "DeclRefExpr" and (lx.get("decl") or {}).get("kind") == "local":
                         tgt = lx["decl"]
+                        asg_elem = e
                 break
         if tgt is not None and not void:
             rvars = set()
@@ -371,6 +373,15 @@ def _inline_one(fn, blk, idx, h, serial, repo):
                     stack.extend(k for k in (x.get("kids") or []) if k is not None)
             if okr and len(rvars) == 1 and tgt.get("id") not in argvars:
                 unify = (list(rvars)[0], dict(tgt))
+                # the caller's `X = <call>` has nothing left to do: on the helper's success path X already is the object, on
+                # its failure paths the copy stores the constant into X itself (below).  What remains of the statement (the
+                # comparison with NULL around it) reads X.
+                if asg_elem is not None:
+                    lhs = asg_elem["kids"][0]
+                    for k_ in list(asg_elem.keys()):
+                        if k_ not in ("loc", "text", "ty", "iline", "iscale"):
+                            asg_elem.pop(k_)
+                    asg_elem.update({"cls": "ImplicitCastExpr", "op": "LValueToRValue", "kids": [lhs], "inlined": h["name"]})
     except Exception:
         unify = None
     # ---- the copy ---------------------------------------------------------------------------------
@@ -399,7 +410,25 @@ def _inline_one(fn, blk, idx, h, serial, repo):
         out = []
         extra = []
         for i, e in enumerate(elems):
-            if e.get("cls") == "ReturnStmt":
+            if e.get("cls") == "ReturnStmt" and unify is not None and asg_elem is not None and e.get("kids") and e["kids"][0] is not None:
+                # unified: `return V` has nothing to do (V is X); `return <constant>` stores the constant into X
+                x = hb["elems"][e["kids"][0][1]] if e["kids"][0][0] == hb["id"] and 0 <= e["kids"][0][1] < len(hb["elems"]) else None
+                hops = 0
+                while x is not None and x.get("val") is None and x.get("cls") in ("ImplicitCastExpr", "CStyleCastExpr", "ParenExpr") and x.get("kids") and x["kids"][0] is not None and hops < 6:
+                    k0 = x["kids"][0]
+                    x = hb["elems"][k0[1]] if k0[0] == hb["id"] else None
+                    hops += 1
+                if x is not None and x.get("cls") == "DeclRefExpr" and (x.get("decl") or {}).get("id") == unify[0]:
+                    elems[i] = {"cls": "NullStmt", "loc": e.get("loc", ""), "text": e.get("text", "return"), "ty": "void"}
+                else:
+                    elems[i] = {"cls": "DeclRefExpr", "decl": dict(unify[1]), "lv": True, "ty": h.get("ret"), "loc": e.get("loc", ""), "text": unify[1].get("name", "")}
+                    extra.append({"cls": "BinaryOperator", "op": "=", "kids": [[hb["id"], i], e["kids"][0]], "ty": h.get("ret"), "loc": e.get("loc", ""), "text": "%s" % e.get("text", "return")})
+                    if x is not None and x.get("val") is not None:
+                        try:
+                            const_returns.append((nb, int(x["val"])))
+                        except (TypeError, ValueError):
+                            pass
+            elif e.get("cls") == "ReturnStmt":
                 if not void and e.get("kids") and e["kids"][0] is not None:
                     # placeholder variable = value; appended after the (last) return statement's position
                     e2 = {"cls": "DeclRefExpr", "decl": {"id": rid, "kind": "local", "name": "$ret_" + h["name"]}, "lv": True, "ty": h.get("ret"), "loc": e.get("loc", ""), "text": "$ret"}
@@ -430,6 +459,8 @@ def _inline_one(fn, blk, idx, h, serial, repo):
             if d and d.get("kind") in ("local", "param", "staticlocal") and "id" in d:
                 if d["id"] in newid:
                     e["decl"] = dict(d, id=newid[d["id"]], kind="local")
+                elif e.get("text") == (unify[1].get("name", "") if unify is not None else None) and e.get("lv") and unify is not None and d == unify[1]:
+                    pass            # the target itself, put there for a constant return
                 elif d.get("kind") == "local" and unify is not None and d["id"] == unify[0]:
                     e["decl"] = dict(unify[1])
                 elif d.get("kind") == "local" and d["id"] != rid:
@@ -454,11 +485,20 @@ def _inline_one(fn, blk, idx, h, serial, repo):
     # a test in the copy that the arguments decide (a literal handed in for the parameter it looks at) has one way out
     index = {b["id"]: b for b in fn["blocks"]}
 
+    env = {}
+
     def value(ref, depth=0):
         b = index.get(ref[0])
         e = b["elems"][ref[1]] if b is not None and 0 <= ref[1] < len(b["elems"]) else None
         if e is None or depth > 12:
             return None
+        if e.get("cls") == "DeclRefExpr" and (e.get("decl") or {}).get("id") in env:
+            return env[e["decl"]["id"]]
+        if e.get("cls") == "ImplicitCastExpr" and e.get("op") == "LValueToRValue" and env and e.get("kids") and e["kids"][0] is not None:
+            k = index.get(e["kids"][0][0])
+            ke = k["elems"][e["kids"][0][1]] if k is not None and 0 <= e["kids"][0][1] < len(k["elems"]) else None
+            if ke is not None and ke.get("cls") == "DeclRefExpr" and (ke.get("decl") or {}).get("id") in env:
+                return env[ke["decl"]["id"]]
         if e.get("val") is not None and e.get("cls") != "DeclRefExpr":
             try:
                 return int(e["val"])
@@ -490,7 +530,10 @@ def _inline_one(fn, blk, idx, h, serial, repo):
             for nb, cv in const_returns:
                 saved = B2["elems"][0]
                 B2["elems"][0] = {"cls": "IntegerLiteral", "val": cv, "ty": saved.get("ty")}
+                if unify is not None and asg_elem is not None:
+                    env[unify[1]["id"]] = cv
                 v = value(cref2)
+                env.clear()
                 B2["elems"][0] = saved
                 if v is not None and B2["succs"][0 if v else 1] is not None:
                     nb["succs"] = [(B2["succs"][0 if v else 1] if sx == b2id else sx) for sx in nb["succs"]]
